@@ -103,6 +103,9 @@ func genC13(t *rapid.T) c13Case {
 		if rapid.Bool().Draw(t, "chunked") {
 			c.Chunks = rapid.SliceOfN(rapid.IntRange(1, 9), 1, 6).Draw(t, "chunks")
 		}
+	} else if rapid.IntRange(0, 2).Draw(t, "chunked") == 0 {
+		// a transport that hands the bytes over in small pieces (TCP segments): decoders must read what they need
+		c.Chunks = rapid.SliceOfN(rapid.IntRange(1, 9), 1, 6).Draw(t, "chunks")
 	}
 	c.NUL = c.Kind == "string" && rapid.IntRange(0, 5).Draw(t, "nul") == 0
 	if rapid.IntRange(0, 3).Draw(t, "cutp") == 0 {
@@ -157,9 +160,9 @@ func runC13(tb stat.TB, c c13Case) {
 			}
 		}
 		in, truncated := cut(enc)
-		r := bytes.NewReader(append(append([]byte{}, in...), c13Sentinel...))
+		r := c.transport(append(append([]byte{}, in...), c13Sentinel...))
 		if truncated {
-			r = bytes.NewReader(in)
+			r = c.transport(in)
 		}
 		var s string
 		var err error
@@ -190,7 +193,7 @@ func runC13(tb stat.TB, c c13Case) {
 				return
 			}
 			rest := make([]byte, 16)
-			n, _ := r.Read(rest)
+			n, _ := io.ReadFull(r, rest)
 			if !bytes.Equal(rest[:n], c13Sentinel) {
 				viol("decoder-consumes-wrong-length", "after decoding a %d-byte string the reader is not at the sentinel (rest %x)", c.Len, rest[:n])
 				return
@@ -213,7 +216,7 @@ func runC13(tb stat.TB, c c13Case) {
 		if truncated {
 			full = in
 		}
-		r := bytes.NewReader(full)
+		r := c.transport(full)
 		var h uint64
 		var err error
 		if p := noPanic(func() { h, err = absnfs.VerifXdrDecodeFileHandle(r) }); p != nil {
@@ -233,7 +236,7 @@ func runC13(tb stat.TB, c c13Case) {
 				return
 			}
 			rest := make([]byte, 16)
-			n, _ := r.Read(rest)
+			n, _ := io.ReadFull(r, rest)
 			if !bytes.Equal(rest[:n], c13Sentinel) {
 				viol("decoder-consumes-wrong-length", "after decoding a handle the reader is not at the sentinel (rest %x)", rest[:n])
 				return
@@ -246,7 +249,7 @@ func runC13(tb stat.TB, c c13Case) {
 			if c.Len <= 64 {
 				// rejected, but the stream must stay in sync: exactly the padded handle consumed
 				rest := make([]byte, 16)
-				n, _ := r.Read(rest)
+				n, _ := io.ReadFull(r, rest)
 				if !bytes.Equal(rest[:n], c13Sentinel) {
 					viol("decoder-consumes-wrong-length", "after rejecting a %d-byte handle the reader is not at the sentinel (rest %x)", c.Len, rest[:n])
 					return
@@ -263,7 +266,7 @@ func runC13(tb stat.TB, c c13Case) {
 		if !truncated {
 			in = msg
 		}
-		r := bytes.NewReader(in)
+		r := c.transport(in)
 		var call *absnfs.RPCCall
 		var err error
 		if p := noPanic(func() { call, err = absnfs.DecodeRPCCall(r) }); p != nil {
@@ -294,7 +297,7 @@ func runC13(tb stat.TB, c c13Case) {
 				return
 			}
 			rest := make([]byte, 16)
-			n, _ := r.Read(rest)
+			n, _ := io.ReadFull(r, rest)
 			if !bytes.Equal(rest[:n], c13Sentinel) {
 				viol("decoder-consumes-wrong-length", "after DecodeRPCCall the reader is not at the arguments (rest %x)", rest[:n])
 				return
